@@ -74,7 +74,7 @@ type verifC43Item struct {
 
 type verifC43Blob struct {
 	blob      pack.Blob
-	plain     []byte // original plaintext
+	plain     []byte        // original plaintext
 	wrongSeal func() []byte // validly sealed different plaintext of the same ciphertext length
 }
 
